@@ -52,6 +52,8 @@ def load_both(text, endian, align, pointer, compiled, then=None):
                 cs.resolve("first")(bytes.fromhex(step[1]))
             except Exception:  # noqa: BLE001
                 pass
+        elif step[0] == "set_pointer":     # cs.pointer reassigned after the definitions were loaded
+            cs.pointer = cs.resolve(step[1])
         elif step[0] == "add_field":       # ("add_field", name, type name, bits, offset): a member added to `main` with a set offset
             cs.resolve("main").add_field(step[1], cs.resolve(step[2]), bits=step[3], offset=step[4])
         else:
@@ -229,6 +231,46 @@ def check(run: Run) -> None:
                         explained.add(id(it))
                     run.report("C03/" + probs[0]["what"].split(" ")[0] + "/mixed-modes", {**c.describe(), "ops": [{"op": "compiled vs interpreted", "problems": probs[:3]}]})
 
+    # the pointer type reassigned AFTER loading: sizes and offsets were fixed at load time (both readers agree on the layout); the interpreted reader
+    # reads a pointer through cs.pointer at parse time, the compiled reader through the type it was generated with (recorded finding)
+    n_ptrsw = 0
+    ptr_texts = [t for t in texts if "*" in t][:: 5][: (60 if thorough else 25)]
+    for ti, text in enumerate(ptr_texts):
+        new_ptr = ["uint32", "uint16", "uint64"][ti % 3]
+        datas = [F.random_data(rng, 64), bytes(range(1, 65))]
+        n_oracle += len(datas)
+        n_ptrsw += 1
+        probs = compare_readers(text, "<", False, None, datas, then=[("set_pointer", new_ptr)])
+        if probs:
+            failures += 1
+            baked = True
+            try:
+                a0, a1 = load_both(text, "<", False, None, True), load_both(text, "<", False, None, True, [("set_pointer", new_ptr)])
+                for d in datas:
+                    r0, r1 = structs.parse(a0, "main", d, 0), structs.parse(a1, "main", d, 0)
+                    k0 = (structs.py_value(r0[1], a0.resolve("main")), r0[2], sizes_of(r0[1])) if r0[0] == "ok" else ("err", type(r0[1]).__name__)
+                    k1 = (structs.py_value(r1[1], a1.resolve("main")), r1[2], sizes_of(r1[1])) if r1[0] == "ok" else ("err", type(r1[1]).__name__)
+                    baked = baked and k0 == k1
+            except Exception:  # noqa: BLE001
+                baked = False
+            sig = "C03/pointer-type-reassigned-after-load" if baked and all(p_["what"].startswith(("values", "recorded", "one reader")) for p_ in probs) else "C03/values/pointer-switch"
+            run.report(sig, {"definition": text, "cstruct_kwargs": {"endian": "<", "pointer": None}, "load_kwargs": {"compiled": True, "align": False},
+                             "history": [["set_pointer", new_ptr]], "ops": [{"op": "compiled vs interpreted", "problems": probs[:3]}]})
+
+    # native byte order spellings: '@' and '=' mean the machine's byte order for every type; the layout stays cstruct's own (no native padding)
+    n_native = 0
+    for ti, text in enumerate(texts[:: max(1, len(texts) // (150 if thorough else 60))]):
+        for endian in ("@", "="):
+            align = bool(ti % 2)
+            datas = [F.random_data(rng, 64), bytes(range(1, 65)), bytes(range(1, 65))[: rng.randrange(0, 24)]]
+            n_oracle += len(datas)
+            n_native += 1
+            probs = compare_readers(text, endian, align, None, datas)
+            if probs:
+                failures += 1
+                run.report("C03/" + probs[0]["what"].split(" ")[0] + "/native-endian", {"definition": text, "cstruct_kwargs": {"endian": endian, "pointer": None},
+                           "load_kwargs": {"compiled": True, "align": align}, "history": [], "ops": [{"op": "compiled vs interpreted", "problems": probs[:3]}]})
+
     # members added with a SET offset (add_field(..., offset=n)): before, at and beyond the end of the previous member, so a run of scalars
     # has to be split, padded or left alone; nested structures and bit fields in between
     n_setoff = 0
@@ -274,7 +316,7 @@ def check(run: Run) -> None:
                  "null-terminated arrays} x endianness x {packed, aligned} x pointer width; plus random definitions; inputs: full, structured and truncated"
                  % ("all" if thorough else "500 sampled"),
                  {"oracle_only_checks": n_oracle, "definitions": len(texts), "exhaustive_sequences": n_exh, "classes_compiled": n_compiled, "classes_fallen_back": n_fallback,
-                  "oracle_failures": failures, "mixed_alignment_mode_cases": n_mixed, "endian_switch_cases": n_switch, "set_offset_cases": n_setoff}, exhaustive=True)
+                  "oracle_failures": failures, "mixed_alignment_mode_cases": n_mixed, "endian_switch_cases": n_switch, "set_offset_cases": n_setoff, "native_endian_cases": n_native, "pointer_reassigned_cases": n_ptrsw}, exhaustive=True)
     run.assumptions += ["NaN floats are not compared", "unions are never compiled (Compiler.compile returns them unchanged): they take part as members only",
                         "vf/plansrc.py parses the generated source text into instructions (fail-closed: an unknown statement is a broken correspondence); "
                         "the object-construction expressions around the getters are not parsed, their effect is held to the model by the read_compiled comparison"]
@@ -285,7 +327,7 @@ def replay(rep: dict) -> int:
     probs = rep["ops"][0].get("problems") or []
     datas = [bytes.fromhex(p["data"]) for p in probs if "data" in p] or [bytes(range(1, 65))]
     then = [(h[1], h[2]) if h[0] == "load_align" else (("add_field", h[2], h[3], h[4], h[5] if len(h) > 5 else None) if h[0] == "add_field" else tuple(h))
-            for h in c.history if h[0] in ("load_align", "set_endian", "warm", "warmfirst", "add_field")]
+            for h in c.history if h[0] in ("load_align", "set_endian", "warm", "warmfirst", "add_field", "set_pointer")]
     now = compare_readers(c.text, c.endian, c.align, c.pointer, datas, then=then)
     print("compiled vs interpreted:", now or "equivalent on the replayed inputs")
     return 1 if now else 0
